@@ -287,6 +287,12 @@ func runC06(rc *fw.RunCtx) {
 	} else {
 		ctx, cancel = context.WithCancel(context.Background())
 		if f.Chance(1, 4) {
+			// a context that also carries a (far) deadline, cancelled explicitly
+			// long before it
+			rc.Hit("fault_far_deadline_context")
+			ctx, cancel = context.WithTimeout(context.Background(), time.Duration(1+f.Intn(48))*time.Hour)
+		}
+		if f.Chance(1, 4) {
 			siteAimed = true
 			// aimed at a site (inside a primitive, at a task start, at the
 			// watcher's fire point); the step-based cancel stays as a fallback
@@ -377,6 +383,7 @@ func runC06(rc *fw.RunCtx) {
 	})
 
 	cancelSeen := -1
+	var simAtCancel, simAtReturn, simAllGone time.Duration = -1, -1, -1
 	liveAtCancel := 0
 	bound := 0
 	var ticksAtReturn int64 = -1
@@ -384,6 +391,7 @@ func runC06(rc *fw.RunCtx) {
 	s.OnQuiescent = func() error {
 		if cancelSeen < 0 && ctx.Err() != nil {
 			cancelSeen = s.Step
+			simAtCancel = s.Now()
 			s.Mark("cancel-observed")
 			alive := aliveExcept(s)
 			liveAtCancel = len(alive)
@@ -412,6 +420,10 @@ func runC06(rc *fw.RunCtx) {
 		if out.Done && ticksAtReturn < 0 {
 			ticksAtReturn = h.Ticks()
 			stepsAtReturn = s.Step
+			simAtReturn = s.Now()
+		}
+		if cancelSeen >= 0 && simAllGone < 0 && out.Done && len(aliveExcept(s)) == 0 {
+			simAllGone = s.Now()
 		}
 		return nil
 	}
@@ -506,6 +518,17 @@ func runC06(rc *fw.RunCtx) {
 		}
 		rc.Violate(cls, "the call returned (%s) but %d task(s) were still alive %d steps after the cancel (bound %d, verdict %s): %s; tick() moved from %d to %d after the return",
 			out.String(), len(alive), s.Step-cancelSeen, bound, verdict, describe(alive), ticksAtReturn, ticksEnd)
+		return
+	}
+	// "promptly" also in simulated time: nothing may sit out a sleep (or any
+	// other timer) after the cancellation. One second is generous: a correct
+	// implementation needs no simulated time at all after the cancel.
+	if simAtReturn >= 0 && simAtCancel >= 0 && simAtReturn-simAtCancel > time.Second {
+		rc.Violate("liveness/late-return-in-simulated-time", "the call returned %v of simulated time after the cancellation (it sat out a timer instead of reacting to the context)", simAtReturn-simAtCancel)
+		return
+	}
+	if simAllGone >= 0 && simAtCancel >= 0 && simAllGone-simAtCancel > time.Second {
+		rc.Violate("liveness/late-task-exit-in-simulated-time", "the last script task exited %v of simulated time after the cancellation", simAllGone-simAtCancel)
 		return
 	}
 	rc.Count("steps_cancel_to_quiet", s.Step-cancelSeen)
